@@ -6,6 +6,7 @@ import (
 	"fmt"
 	"math"
 	"math/big"
+	"sync"
 
 	"pgregory.net/rapid"
 
@@ -15,8 +16,11 @@ import (
 // keyGen draws a key pair from rapid-drawn seed bytes (so replays use the
 // same keys). A small label space keeps key derivation cheap via the cache.
 var keyCache = map[string]ref.Key{}
+var keyCacheMu sync.Mutex
 
 func keyFor(label string) ref.Key {
+	keyCacheMu.Lock()
+	defer keyCacheMu.Unlock()
 	if k, ok := keyCache[label]; ok {
 		return k
 	}
